@@ -46,7 +46,7 @@ func init() {
 	core.Register(&core.Spec{
 		ID: "C13", Engine: "node", Run: c13Run,
 		QuickRuns: 8000, ThorRuns: 150000, QuickCap: 60 * time.Second, ThorCap: 12 * time.Minute,
-		Rule: "a run drives 2-10 scrapes (plus complete sweeps over every break offset of a small payload) through a real net/http server serving the real Proxy over net.Pipe connections to a real http.Client configured with the proxy URL, all inside one synctest bubble; per scrape a drawn target (assigned normal / assigned in_transfer / unassigned), payload, gzip, chunking and failure stage (connect, non-200 status, timeout on the fake clock, body break at a drawn offset, corrupted gzip stream, administratively stopped); a case is (failure stage class) x (assigned?) x gzip",
+		Rule: "a run drives 2-10 scrapes (plus complete sweeps over every break offset of a small payload) through a real net/http server serving the real Proxy over net.Pipe connections to a real http.Client configured with the proxy URL, all inside one synctest bubble; per scrape a drawn target (assigned normal / assigned in_transfer / unassigned), payload, gzip, chunking and failure stage (connect, non-200 status, timeout on the fake clock, body break at a drawn offset - the connection closed early (unexpected EOF) or reset (ECONNRESET, 'connection reset by peer') -, corrupted gzip stream, administratively stopped); a case is (failure stage class) x (assigned?) x gzip",
 		Real: append([]string{"net/http server and client over net.Pipe"}, realNode...), Stub: stubNode,
 		SchedLabels: []string{"op", "scrape_outcome", "fail_kind", "fail_offset", "update_mode", "prom_reload_fails", "overlap_flip", "kind", "break_offset", "timeout_offset", "chunking", "short_writes", "chunk", "cut_point", "child_cut_point", "config_change", "op_is_config"},
 		Assume:      []string{"the Prometheus-side client waits longer (15 s) than the job's scrape_timeout (10 s), so a time-out is the proxy's verdict, not the client's"},
@@ -64,7 +64,7 @@ func init() {
 		ID: "C10", Engine: "node",
 		Run:       modelRun(nodeCfg{updW: 8, scrapeW: 6, restartW: 2, advW: 2, overlapW: 2, minOps: 3, maxOps: 30, failW: 4}),
 		QuickRuns: 6000, ThorRuns: 300000, QuickCap: 60 * time.Second, ThorCap: 12 * time.Minute,
-		Rule: "a run is a drawn sequence of 3-30 operations on one real sidecar (target updates over 6 hashes x 3 jobs with adds/removals/state flips/repeats/empty/job moves, scrapes with drawn outcome through the real proxy, restarts from the store directory, fake-clock advances) with the real GET status / runtimeinfo answers compared with a reference model after every operation; a case is (set of operation kinds mixed) x (multiset of final entry classes state/health/scrape-class) x idle?; trivial = fewer than two kinds of operation",
+		Rule: "a run is a drawn sequence of 3-30 operations on one real sidecar (target updates over 6 hashes x 3 jobs with adds/removals/state flips/repeats/empty/job moves/a job named with an empty list, scrapes with drawn outcome through the real proxy, restarts from the store directory, fake-clock advances) with the real GET status / runtimeinfo answers compared with a reference model after every operation; a case is (set of operation kinds mixed) x (multiset of final entry classes state/health/scrape-class) x idle?; trivial = fewer than two kinds of operation",
 		Real: realNode, Stub: stubNode,
 		SchedLabels: []string{"op", "scrape_outcome", "fail_kind", "fail_offset", "update_mode", "prom_reload_fails", "overlap_flip", "kind", "break_offset", "timeout_offset", "chunking", "short_writes", "chunk", "cut_point", "child_cut_point", "config_change", "op_is_config"},
 		Assume:      []string{"a request never names one hash twice with different states (order of two states for one hash in one request is left open by the statement)"},
